@@ -17,7 +17,9 @@ const RepoModule = "github.com/bitcoin-sv/block-headers-service"
 
 // Program is the loaded SSA program plus engine configuration shared by all paths.
 type Program struct {
-	Prog          *ssa.Program
+	// DroppedOptional: non-empty (the load error) when the optional harness files had to be left out
+	DroppedOptional string
+	Prog            *ssa.Program
 	Fset          *token.FileSet
 	Pkgs          map[string]*ssa.Package
 	TPkgs         map[string]*types.Package
@@ -40,7 +42,16 @@ type Program struct {
 // Overlay maps harness files of /verif/harness into virtual paths under the repository.
 // harnessDir/<sub>/x.go  ->  repo/internal/zzverif/<sub>/x.go
 // harnessDir/_inpkg/<repo-relative-dir>/x.go -> repo/<repo-relative-dir>/zz_x.go
-func BuildOverlay(repoDir, harnessDir string) (map[string][]byte, []string, error) {
+// IsOptionalHarness: the file carries the marker line //vh:optional before its package clause.
+func IsOptionalHarness(b []byte) bool {
+	s := string(b)
+	if i := strings.Index(s, "\npackage "); i >= 0 {
+		s = s[:i+1]
+	}
+	return strings.HasPrefix(s, "//vh:optional") || strings.Contains(s, "\n//vh:optional\n")
+}
+
+func BuildOverlay(repoDir, harnessDir string, skipOptional bool) (map[string][]byte, []string, error) {
 	ov := map[string][]byte{}
 	pkgs := map[string]bool{}
 	err := filepath.Walk(harnessDir, func(p string, info os.FileInfo, err error) error {
@@ -54,6 +65,9 @@ func BuildOverlay(repoDir, harnessDir string) (map[string][]byte, []string, erro
 		}
 		if strings.HasSuffix(p, "_native.go") || strings.HasSuffix(p, "_test.go") {
 			return nil // native-only bodies are not part of the symbolic program
+		}
+		if skipOptional && IsOptionalHarness(b) {
+			return nil
 		}
 		if strings.HasPrefix(rel, "_inpkg/") {
 			sub := strings.TrimPrefix(rel, "_inpkg/")
@@ -113,8 +127,24 @@ func Rewrites(repoDir string) map[string][]byte {
 // SourcePkgs are dependencies executed from source rather than modelled.
 var SourcePkgs = []string{"github.com/pkg/errors", "bytes", "io", "encoding/binary", "github.com/gin-gonic/gin", "container/list", "unicode/utf8", "slices", "cmp"}
 
+// Load loads the repository with all harness files; if that does not type-check it retries
+// without the optional harness files (those that call unexported repository functions whose
+// signatures a refactor may change) and records that in Program.DroppedOptional.
 func Load(repoDir, harnessDir string, extraPatterns ...string) (*Program, error) {
-	ov, hpk, err := BuildOverlay(repoDir, harnessDir)
+	P, err := load(repoDir, harnessDir, false, extraPatterns...)
+	if err != nil {
+		P2, err2 := load(repoDir, harnessDir, true, extraPatterns...)
+		if err2 != nil {
+			return nil, fmt.Errorf("%v\n(without the optional harness files: %v)", err, err2)
+		}
+		P2.DroppedOptional = err.Error()
+		return P2, nil
+	}
+	return P, nil
+}
+
+func load(repoDir, harnessDir string, skipOptional bool, extraPatterns ...string) (*Program, error) {
+	ov, hpk, err := BuildOverlay(repoDir, harnessDir, skipOptional)
 	if err != nil {
 		return nil, err
 	}
